@@ -20,16 +20,16 @@ CHECKS = {
          "Every enum over the ten integer bases with all value vectors up to length 3 over a boundary alphabet, all default-marker subsets x defaultable, and long families up to 32 variants ending exactly at / one past the base's maximum is pushed through the real pipeline; rejections demanded by the statement are checked, accepted cases are compared with the model's values (registry), compiled by rustc with `E::V as base == value`, size and alignment asserts, and the #[default] variant is located with syn.",
          "rustc semantics of #[derive(Default)]/#[default]; values beyond isize are unspellable in the language.", "DESIGN.md §6 C08"),
  "C09": ("explicit-state exploration of resolution schedules (E2) on the real resolver through the cfg(pyxis_verif) hook: BFS over per-pass worklist permutations with registry-state de-duplication, times all module-addition orders",
-         "For every input set of an order-sensitive corpus (late-generated vftable items referenced from fields, signatures, extern values and imports; derived types; all small dependency graphs) every module-addition order and every resolution schedule (all permutations of the worklist at every pass, <= 6 user types) is executed on the real SemanticState::build; all executions of one input set must agree on Ok/Err and on the bytes of every output file.",
+         "For every input set of an order-sensitive corpus (late-generated vftable items referenced from fields, signatures, extern values and imports; derived types; all small dependency graphs) every module-addition order and every resolution schedule (all permutations of the worklist at every pass, <= 6 user types) is executed on the real SemanticState::build; all executions of one input set must agree on Ok/Err and on the bytes of every output file. Also: 4-type inheritance shapes and modules whose items differ only in the case of their names, built 12 / 24 times in one process.",
          "The hook permutes the worklist at pass boundaries only; a divergence while replaying a schedule prefix is a machinery error. Hash-seed variation beyond the worklist order is covered by repeated in-process builds (reported separately).", "DESIGN.md §6 C09"),
  "C10": ("bounded-exhaustive enumeration of dependency graphs (E1) against a fixpoint model of resolvability, plus schedule exploration (E2) of the small graphs",
-         "Every dependency graph over up to 3 types (4 thorough) x edge kinds (by value, array, base, pointer, built-in, undefined name) x module assignments, chains to length 12 in three declaration orders, by-value cycles to length 6, pointer cycles, and undefined names in non-field positions is run through the real pipeline; Ok iff the model says resolvable, every declared field present with the declared type (syn), the error's type list equals the model's set, and the verdict is the same under every resolution schedule.",
+         "Every dependency graph over up to 3 types (4 thorough) x edge kinds (by value, array, base, pointer, built-in, undefined name) x module assignments, chains to length 12 in three declaration orders, by-value cycles to length 6, pointer cycles, and undefined names in non-field positions is run through the real pipeline; Ok iff the model says resolvable, every declared field present with the declared type (syn), the error's type list equals the model's set, and the verdict is the same under every resolution schedule. Also: zero-length array edges (named and unnamed), by-name imports, the generated vftable name in every position and relation to its owner, a module whose path equals a type path of its parent.",
          "Types with more than one field are packed so layout rules do not mask resolution verdicts.", "DESIGN.md §6 C10"),
  "C11": ("bounded-exhaustive enumeration of module sets x ordered import lists (E1) against a precedence model; syn inspection of emitted paths",
-         "Every combination of three provider modules (a, b, n::c) defining or not a type of the observed name with sizes 4/8/16, an observer with or without its own definition, and every ordered use list up to length 3 over module and by-name imports, for a fresh name and for a user type named like a built-in, is run through the real pipeline; the emitted field, parameter and return type paths must be the fully qualified path of the definition the statement's precedence selects, and the referring type's resolved size must be that definition's.",
+         "Every combination of three provider modules (a, b, n::c) defining or not a type of the observed name with sizes 4/8/16, an observer with or without its own definition, and every ordered use list up to length 3 over module and by-name imports, for a fresh name and for a user type named like a built-in, is run through the real pipeline; the emitted field, parameter and return type paths must be the fully qualified path of the definition the statement's precedence selects, and the referring type's resolved size must be that definition's. Also: each case next to a type `Big<name>` whose name merely ends in the observed one, and the name `void`.",
          "Resolved size == compiled size is C02's claim.", "DESIGN.md §6 C11"),
  "C14": ("bounded-exhaustive enumeration of input directories (E1) through pyxis::build; directory listing and syn item inspection",
-         "Every non-empty subset of the module paths {a, n/c, n/d/e, n}; one module at a time ranges over every subset of item kinds and every sequence of up to 2 backend blocks (rust prologue/epilogue/both, cpp); plus a collision menu that must be rejected. pyxis::build runs on real directories; the output listing must be exactly one .rs per module, each file's struct/enum/accessor multiset must equal the declared one plus generated vftable structs, prologue items first and epilogue items last in source order, no foreign backend text.",
+         "Every non-empty subset of the module paths {a, n/c, n/d/e, n}; one module at a time ranges over every subset of item kinds and every sequence of up to 2 backend blocks (rust prologue/epilogue/both, cpp); plus a collision menu that must be rejected. pyxis::build runs on real directories; the output listing must be exactly one .rs per module, each file's struct/enum/accessor multiset must equal the declared one plus generated vftable structs, prologue items first and epilogue items last in source order, no foreign backend text. Also: crowded modules (up to 12 further items of every kind with names that are prefixes of each other or differ in case, a digit or an underscore).",
          "File-system enumeration order is whatever glob yields in this sandbox.", "DESIGN.md §6 C14"),
  "C16": ("bounded-exhaustive enumeration of calling-convention declarations (E1); ABI strings read with syn from the unmodified output, acceptance by rustc on i686-pc-windows-msvc",
          "Every choice of convention (absent, the seven names, an invalid name) for a virtual function and independently for an address-bound impl function, every receiver form, inheritance depth 1..3 with the slot re-declared at each level, with and without placeholder slots: the ABI string of every vftable slot at every level, of placeholder slots, and of the wrapper's function-pointer type must be the declared name or the receiver-based default; invalid names must be rejected; every accepted output is compiled unmodified for i686-pc-windows-msvc. Thorough: the functions added by derived levels carry an independent convention from the same nine and the impl function sits on the most derived type (55 k cases).",
@@ -41,28 +41,28 @@ CHECKS = {
          "Abstract modules are built with pyxis's own grammar constructors (all types to nesting depth 4/5 in five positions, all attribute lists up to length 2 over a 13-attribute alphabet in eleven positions, all signatures with up to 3 arguments, all item sequences up to length 3, boundary integers in every integer position), printed by an independent printer in a covering set of styles (comments between all tokens, trailing commas, doc spellings, attribute grouping, integer spellings, backend forms, item interleaving) and must parse back to exactly the same value. Negative side: every token sequence over a 41-token alphabet to length 3, then breadth-first over the sequences the parser has not yet rejected to length 5 (7 thorough): the parser's accept/reject must equal that of an independent reference recogniser of the grammar, accepted text must re-print and re-parse to the same module, rejected text must report a position inside the text, nothing may panic.",
          "The printer is the harness's; `_` as an argument name is outside the de-facto language (the parser's lookahead does not admit it) and is not generated. Accept/reject of every explored token sequence is compared with a reference recogniser written from the grammar (token alphabet only; not arbitrary bytes).", "DESIGN.md §6 C18"),
  "C19": ("bounded-exhaustive enumeration of metamorphic pairs (E1): input set vs. the same set plus unrelated modules; byte comparison of the observed module's file",
-         "Six base input sets around an observed module x 14 unrelated module bodies built to collide by name with the observed module's types, generated vftable struct, enum and extern value, to import it and to derive from it, x five module paths (including child paths of the observed and of an imported module) x added before/after, singly and in pairs, plus unreferenced types added to imported modules: the observed module's output file must be byte-identical whenever the changed set is accepted.",
+         "Six base input sets around an observed module x 14 unrelated module bodies built to collide by name with the observed module's types, generated vftable struct, enum and extern value, to import it and to derive from it, x five module paths (including child paths of the observed and of an imported module) x added before/after, singly and in pairs, plus unreferenced types added to imported modules: the observed module's output file must be byte-identical whenever the changed set is accepted. Also: a base set with a by-name import followed by a module import, and unrelated modules at the paths of imported types.",
          "Pairs whose changed set is rejected are outside the statement (counted in evidence).", "DESIGN.md §6 C19"),
  "C20": ("bounded-exhaustive enumeration of descriptions x rewrite-site subsets (E1); byte comparison of outputs",
-         "For every accepted description of the layout space all compatible combinations (up to 8 sites) of: explicit address equal to the current offset, unnamed gap <-> address / #[size], #[size] equal to the natural size; for vftables every subset of functions given its current #[index] (with gaps and declared sizes); for enums every subset of implicit variants given its implicit value; every definition order of a multi-type module; each also re-spelled in hex and with digit separators. The rewritten description must be accepted and produce byte-identical files.",
+         "For every accepted description of the layout space all compatible combinations (up to 8 sites) of: explicit address equal to the current offset, unnamed gap <-> address / #[size], #[size] equal to the natural size; for vftables every subset of functions given its current #[index] (with gaps and declared sizes); for enums every subset of implicit variants given its implicit value; every definition order of a multi-type module; each also re-spelled in hex and with digit separators. The rewritten description must be accepted and produce byte-identical files. Also: the index written before and after a convention, descending explicit enum values, six (seven) similar-named definitions in every order.",
          "Rewrite sites and current offsets come from the reference layout model.", "DESIGN.md §6 C20"),
  "C12": ("bounded-exhaustive robustness menus (E1) and token-sequence exploration continued into build (E3), each case evaluated in a resource-limited worker subprocess",
-         "Every numeric position x a boundary-integer alphabet (singly and all pairs per template), every identifier position x an identifier alphabet (raw, generic, non-ASCII, keywords), every known attribute name x 10 shapes x 12 positions, structural oddities, the dependency graphs of C10, public-API call sequences (up to 3 add_module calls x 4 path kinds, then build), and every token sequence the parser accepts, all at widths 4 and 8 through parse, add_module, build and emit under catch_unwind inside worker processes with a 4 GiB address-space limit and a no-progress watchdog; every rejected token text up to length 3 through add_file must report path:line:column inside the file. Outcome Ok/Err is fine; panic, abort, stall or memory kill is a violation attributed to the case and confirmed by a solitary re-run.",
+         "Every numeric position x a boundary-integer alphabet (singly and all pairs per template), every identifier position x an identifier alphabet (raw, generic, non-ASCII, keywords), every known attribute name x 10 shapes x 12 positions, structural oddities, the dependency graphs of C10, public-API call sequences (up to 3 add_module calls x 4 path kinds, then build), and every token sequence the parser accepts, all at widths 4 and 8 through parse, add_module, build and emit under catch_unwind inside worker processes with a 4 GiB address-space limit and a no-progress watchdog; every rejected token text up to length 3 through add_file must report path:line:column inside the file. Outcome Ok/Err is fine; panic, abort, stall or memory kill is a violation attributed to the case and confirmed by a solitary re-run. Also: types nested 8..128 levels, inputs with thousands of members, chains of 300 types, rust backend text whose offending token spans lines, parse errors behind multi-byte characters.",
          "Resource use is judged by fixed generous caps, not asymptotically; table-sized numeric positions are capped (4096 quick / 65536 thorough).", "DESIGN.md §6 C12"),
  "C05": ("bounded-exhaustive enumeration of impl blocks (E1); emitted wrappers executed on the host against recording stubs mapped at the declared absolute addresses (X), signatures read with syn (S)",
          "Every receiver form x every argument-type vector of length 0..3 over five integer/pointer types (rotations at lengths 4..6) x five return types, addresses from an executable alphabet in three spellings: the real emitted wrapper is compiled (conventions normalised to C) and run; a 23-byte stub mmap'ed at the declared address records the call: exactly one call, at that address, receiver = object address, arguments in order (masked to width), return value propagated. Wrapper signature and address literal are checked with syn at both widths; the rejection menu (no address, unresolvable parameter/return type, index on an impl function) must be Err.",
          "SysV x86-64 register assignment for extern \"C\"; execution on the 64-bit host only.", "DESIGN.md §6 C05"),
  "C04": ("bounded-exhaustive enumeration of vftable descriptions (E1) against a slot-assignment model; table layout asserted by rustc on both widths; dispatch executed on the host against two fake tables of recording stubs (X)",
-         "Every assignment of {no index, index 0..6} to up to 3 functions (4 in thorough) x four declared table sizes: contradictions must be rejected, accepted tables are compiled with offset_of!/size_of asserts at widths 4 and 8 and their placeholder slots counted with syn. Execution: index patterns x receivers x arguments x return types, on the owning type, a derived type inheriting the table and a derived type extending it; two objects carry two different fake tables whose entries are recording stubs; every emitted wrapper is run: one call, into the declared slot of that object's table, receiver = object, arguments in order, result returned.",
+         "Every assignment of {no index, index 0..6} to up to 3 functions (4 in thorough) x four declared table sizes: contradictions must be rejected, accepted tables are compiled with offset_of!/size_of asserts at widths 4 and 8 and their placeholder slots counted with syn. Execution: index patterns x receivers x arguments x return types, on the owning type, a derived type inheriting the table and a derived type extending it; two objects carry two different fake tables whose entries are recording stubs; every emitted wrapper is run: one call, into the declared slot of that object's table, receiver = object, arguments in order, result returned. Also: slots 9..100 and tables of 128 entries, and the index next to a doc line and an explicit convention in four attribute arrangements; placeholders are recognised as the fields no function declares, whatever they are called.",
          "First base carrying the vftable pointer at offset 0; SysV extern \"C\" for stubs; execution on the 64-bit host.", "DESIGN.md §6 C04"),
  "C06": ("bounded-exhaustive enumeration of inheritance shapes and of single-slot mutations of a compatible vftable prefix (E1); rustc layout asserts on both widths, syn inspection, vftable() executed on the host (X)",
-         "All 2 650 shapes over up to 4 types (ordered lists of up to 3 earlier types as bases, own vftable block or not) and a three-function base table whose derived block is the compatible prefix, an extension, or one of every single-slot mutation (name, receiver mutability, parameter type, return type, convention, dropped slot, swapped slots) in three inheritance forms: every mutation must be rejected; for accepted shapes rustc asserts base offsets, sizes and the own vftable pointer at offset 0 followed by the first declared field, syn checks presence/absence of the vftable field and the accessor's table type, and the accessor is executed: it returns the pointer planted at the start of the object.",
+         "All 2 650 shapes over up to 4 types (ordered lists of up to 3 earlier types as bases, own vftable block or not) and a three-function base table whose derived block is the compatible prefix, an extension, or one of every single-slot mutation (name, receiver mutability, parameter type, return type, convention, dropped slot, swapped slots) in three inheritance forms: every mutation must be rejected; for accepted shapes rustc asserts base offsets, sizes and the own vftable pointer at offset 0 followed by the first declared field, syn checks presence/absence of the vftable field and the accessor's table type, and the accessor is executed: it returns the pointer planted at the start of the object. Also: a base table with a placeholder gap whose derived block keeps, closes, moves, widens or fills the gap; a module whose accessor cannot be compiled is a violation.",
          "Only `accepted => compatible` is claimed (compatible-but-rejected is counted). The reference model lays out pointer, bases, own field sequentially.", "DESIGN.md §6 C06"),
  "C07": ("bounded-exhaustive enumeration of hierarchies with impl functions (E1) against a model of the exposure relation; every emitted method and conversion executed on the host against recording stubs (X)",
-         "Every shape over up to 3 types x five impl-function assignments per type over clashing names (public/private, three receiver forms, public/private virtual functions), and the 4-type shapes with diamonds: for every (base field, public function of the base's type incl. inherited, public virtual function of a non-first base) the derived type must have a public method under the original name or the field-prefixed name whose execution reaches the original's address or vftable slot exactly once with the receiver at the base sub-object's offset; AsRef/AsMut to each base type occurring once must return that sub-object's address and must be absent for types occurring more than once.",
+         "Every shape over up to 3 types x five impl-function assignments per type over clashing names (public/private, three receiver forms, public/private virtual functions), and the 4-type shapes with diamonds: for every (base field, public function of the base's type incl. inherited, public virtual function of a non-first base) the derived type must have a public method under the original name or the field-prefixed name whose execution reaches the original's address or vftable slot exactly once with the receiver at the base sub-object's offset; AsRef/AsMut to each base type occurring once must return that sub-object's address and must be absent for types occurring more than once. Also: the second base field of every type is a raw identifier, a rejected hierarchy is a violation, and four two-module hierarchies in which two base types share their short name are executed.",
          "Functions take only a receiver here (argument passing is C04/C05). When `<field>_<name>` is itself taken the statement names no alternative and further field prefixes are accepted.", "DESIGN.md §6 C07"),
  "C13": ("bounded-exhaustive description spaces (E1) whose every accepted output is type-checked in full by rustc for x86_64 and for i686-pc-windows-msvc",
-         "The accepted cases of the layout space, a dedicated marker space (every subset of copyable/cloneable/defaultable/packed x eleven field kinds x same/cross module), and the carry-over, convention, scoping, enum, hierarchy and module-set spaces are assembled into crates (modules mirroring the input tree, extern types supplied) and type-checked including bodies: on the host with calling conventions normalised to C and, unmodified, for i686-pc-windows-msvc. Zero errors required; deny-by-default lints count.",
+         "The accepted cases of the layout space, a dedicated marker space (every subset of copyable/cloneable/defaultable/packed x eleven field kinds x same/cross module), and the carry-over, convention, scoping, enum, hierarchy and module-set spaces are assembled into crates (modules mirroring the input tree, extern types supplied) and type-checked including bodies: on the host with calling conventions normalised to C and, unmodified, for i686-pc-windows-msvc. Zero errors required; deny-by-default lints count. Also: nested-array field kinds, module doc x prologue x epilogue (must be accepted), declared names that look like generated ones.",
          "Quick tier strides through the larger source spaces. Three defect classes are listed as known findings (packed type embedding a struct, duplicate enum values, user type named like a built-in).", "DESIGN.md §6 C13"),
  "C15": ("bounded-exhaustive enumeration of singleton / extern-value declarations (E1); accessors executed on the host with data pages mapped at the declared absolute addresses (X), literals read with syn (S)",
          "#[singleton(A)] on a struct and on an enum and `extern v: T` with #[address(A)] for seven types, A over five mappable and four unmappable addresses in three spellings, public and private: struct get() is None for null and otherwise exactly the planted object (one indirection), enum get() returns the stored value, get_v() refers to address A; accessor type, visibility, address literal and indirection level are checked in the text at both widths; an extern value without address must be rejected. Thorough: every ordered pair of accessor declarations in one module (10 x 10 kinds, four address relations incl. equal and adjacent, three visibility combinations, both declaration orders), both accessors judged in the text and executed in one process.",
